@@ -38,6 +38,12 @@ NAME_FAMILIES = {
                          "struct Ov { void m(); void m(int); static int s(); Ov(); Ov(int); ~Ov(); };\n"
                          "template<class T, class U> struct Tm { T t; U *u; }; struct UsesTm { Tm<int, float> a; Tm<char, Tm<int,int> > b; };\n"
                          "struct Nest { struct In { int i; } in; enum E { A } e; };\n"),
+    # the same entity declared several times: extern declaration then definition (with initializer), tentative
+    # definitions, prototype then definition, forward declaration then definition of a tag
+    "redeclarations": ("c", "extern const int LIMIT;\nextern const unsigned MASK;\nextern int counter;\nint tentative;\nint tentative;\n"
+                            "struct node;\nint visit(struct node *n);\nconst int LIMIT = 5;\nconst unsigned MASK = 0xffu;\nint counter = 3;\n"
+                            "struct node { struct node *next; int v; };\nint visit(struct node *n);\nstatic const int LOCAL = 9;\n"
+                            "extern const int LIMIT;\nenum tag_e;\n"),
     # types that are reachable from the roots only through the signature of a function pointer
     "fnptr-signature-types": ("c", "struct io_ctx { int fd; };\nstruct io_stat { long n; };\ntypedef struct io_stat io_stat_t;\nenum io_mode { IO_R, IO_W };\n"
                                    "struct io_ops { int (*open)(struct io_ctx *c, const char *p, enum io_mode m); io_stat_t (*stat)(struct io_ctx *c);\n"
